@@ -335,7 +335,7 @@ func init() {
 	engine.Register(&engine.Check{
 		ID:    "C09",
 		Level: "exploration",
-		Rule: "every composition of tail contexts {cond default arm, cond first arm, begin last, let, letseq, newScope, and, or, let shadowing the parameter} to nesting depth 2 (thorough 3) x 17 body kinds " +
+		Rule: "every composition of tail contexts {cond default arm, cond first arm, begin last, let, letseq, newScope, and, or, let shadowing the parameter} to nesting depth 2 (thorough 3, the depth-3 nests crossed with every third body kind) x 17 body kinds " +
 			"(plain, local def, closure over parameter/local, mutating closure, helper call, variadic, lazy parameter, traced argument order): transparency vs the reference evaluator for depths 0,1,2,3,10; " +
 			"stack high-water marks (sampled in a pre-call hook) equal for depths 10,60,300 (thorough: 10,100,1000 and 100000 for the accumulating kinds); distinct_nontrivial = distinct (shape, depth, high-water, value) tuples",
 		Assumptions: []string{
@@ -349,9 +349,14 @@ func init() {
 			}
 			kinds := c09kinds()
 			c09chains(depth, func(name string, t *T) {
-				for _, k := range kinds {
+				for ki, k := range kinds {
 					if c.Expired() {
 						return
+					}
+					// thorough: the depth-3 nests are crossed with every third body kind (rotating with the nest), the
+					// shallower ones with all kinds
+					if c.Thorough() && strings.Count(name, ">") >= 2 && !strings.HasPrefix(name, "deep:") && (ki+len(name))%3 != 0 {
+						continue
 					}
 					if c.Mine() {
 						c09one(c, name, t, k, c.Thorough())
